@@ -102,8 +102,8 @@ def _collect(ctx, props, plans, design_cfgs=(), refinement=False, report_deaths=
         if plan.get("cover"):
             behs, res, exported = run_.cover(plan["steps"], edge=plan.get("edge", False), crash=plan.get("crash", False),
                                              avoid=plan.get("avoid", True), timeout=plan.get("tlc_timeout", 1500))
-            design.append({"cfg": "Mirror_edgecover.cfg" if plan.get("edge") else "Mirror_cover.cfg", "world": plan["world"],
-                           "checked": "edge cover" if plan.get("edge") else "state cover", "distinct_states": res.get("distinct", 0),
+            design.append({"cfg": ("Mirror_edge2cover.cfg" if plan.get("edge") == 2 else "Mirror_edgecover.cfg") if plan.get("edge") else "Mirror_cover.cfg", "world": plan["world"],
+                           "checked": ("two-edge cover" if plan.get("edge") == 2 else "edge cover") if plan.get("edge") else "state cover", "distinct_states": res.get("distinct", 0),
                            "generated": res.get("states", 0), "design_counterexample": None, "exported": exported, "maximal_behaviours": len(behs)})
             ctx.log("world %s: %s cover <= %d steps: %s distinct, %d maximal behaviours" % (plan["world"], "edge" if plan.get("edge") else "state",
                     plan["steps"], res.get("distinct"), len(behs)))
